@@ -716,7 +716,7 @@ def evaluate_payload_template(input, context, template):
                     "Function String, not {}.".format(k, v)
                 )
             if v == "$":  # It's a path representing the root node
-                v = clone(input)  # clone to avoid potential circular reference
+                v = copy.deepcopy(input)  # copy to avoid potential circular reference
             elif v.startswith("$"):  # It's a path
                 v = apply_path(input, context, v)
             else:  # It's an Intrinsic Function
